@@ -126,28 +126,75 @@ func TestRPCHandlers(t *testing.T) {
 		if !evid.Thorough() && length > 110 && rapid.IntRange(0, 3).Draw(t, "long") != 0 {
 			length = 110
 		}
+		// The expected chain is the harness's OWN record: the blocks returned by Apply, minus the ones it removed, in
+		// order (blocks[i] has height i+1). The engine's idea of its last block (Chain.LastBlock = the block cache, which
+		// the handlers under test read as well) is cross-checked against that record after every step instead of being
+		// the source of the expectation (audit 2026-09: a stale cached tip would have been mirrored).
 		blocks := buildChain(t, n, length, 0)
+		ownTip := func() *blockchain.Block {
+			if len(blocks) == 0 {
+				return n.Genesis
+			}
+			return blocks[len(blocks)-1]
+		}
+		checkTip := func(when string) {
+			want, got := ownTip(), n.Tip()
+			if got == nil || !bytes.Equal(got.Header.ID, want.Header.ID) || got.Header.Height != want.Header.Height {
+				gh, gid := int64(-1), []byte(nil)
+				if got != nil {
+					gh, gid = int64(got.Header.Height), got.Header.ID
+				}
+				t.Fatalf("Chain.LastBlock() %s: height %d id %x, but the last block applied and not removed is height %d id %x (chain of %d blocks built by the harness, block cache %d)",
+					when, gh, gid, want.Header.Height, []byte(want.Header.ID), len(blocks), cache)
+			}
+		}
+		for i, b := range blocks {
+			if b.Header.Height != uint32(i+1) {
+				t.Fatalf("harness: block %d returned by Apply has height %d", i, b.Header.Height)
+			}
+		}
+		checkTip("after building the chain")
 		// a reorganised tail: some blocks are removed and replaced, the removed ones are no longer on the chain
 		var orphan []*blockchain.Block
 		if rapid.Bool().Draw(t, "reorg") {
 			F := n.Finalized()
-			if d := int(n.Tip().Header.Height - F); d > 1 {
+			if d := int(ownTip().Header.Height) - int(F); d > 1 {
 				k := rapid.IntRange(1, d).Draw(t, "reorgDepth")
 				for i := 0; i < k; i++ {
-					orphan = append(orphan, n.Tip())
-					if err := n.Exec.VerifDeleteBlock(n.Tip(), false); err != nil {
+					top := ownTip()
+					orphan = append(orphan, top)
+					if err := n.Exec.VerifDeleteBlock(top, false); err != nil {
 						t.Fatalf("delete: %v", err)
 					}
+					blocks = blocks[:len(blocks)-1]
+					checkTip(fmt.Sprintf("after removing block %d (%d of %d removals)", top.Header.Height, i+1, k))
 				}
-				blocks = blocks[:len(blocks)-k]
-				blocks = append(blocks, buildChain(t, n, rapid.IntRange(0, k+2).Draw(t, "regrow"), 100)...)
+				regrown := buildChain(t, n, rapid.IntRange(0, k+2).Draw(t, "regrow"), 100)
+				for i, b := range regrown {
+					if b.Header.Height != uint32(len(blocks)+i+1) {
+						t.Fatalf("block %d applied after removing %d blocks has height %d, the harness's record ends at height %d", i, k, b.Header.Height, len(blocks)+i)
+					}
+				}
+				blocks = append(blocks, regrown...)
+				checkTip(fmt.Sprintf("after removing %d blocks and applying %d new ones", k, len(regrown)))
+				evid.R.Label("rpc-handlers:own-record-cross-checked-after-remove-and-regrow", 1)
 			}
 		}
 		byHeight := map[uint32]*blockchain.Block{0: n.Genesis}
 		for _, b := range blocks {
 			byHeight[b.Header.Height] = b
 		}
-		tip := n.Tip().Header.Height
+		tip := ownTip().Header.Height
+		// the stored chain, height by height, is the own record as well (what the handlers read below the block cache)
+		for h := uint32(0); h <= tip; h++ {
+			hd, err := n.Chain.DataAccess().GetBlockHeaderByHeight(h)
+			if err != nil || !bytes.Equal(hd.ID, byHeight[h].Header.ID) {
+				t.Fatalf("stored header at height %d (err %v) is not the block the harness applied there (own record of %d blocks, %d removed)", h, err, len(blocks), len(orphan))
+			}
+		}
+		if _, err := n.Chain.DataAccess().GetBlockHeaderByHeight(tip + 1); err == nil {
+			t.Fatalf("a header is stored at height %d, above the last block the harness applied and did not remove (%d)", tip+1, tip)
+		}
 		syncer := n.Exec.VerifSyncer()
 		spansCap, spansCache := false, false
 		// GetLastBlock
@@ -155,8 +202,11 @@ func TestRPCHandlers(t *testing.T) {
 			w := &rw{}
 			syncer.HandleRPCEndpointGetLastBlock()(w, &p2p.Request{})
 			lb, err := blockchain.NewBlock(w.data)
-			if err != nil || !bytes.Equal(lb.Header.ID, n.Tip().Header.ID) {
-				t.Fatalf("getLastBlock does not return the tip: %v", err)
+			if err != nil || !bytes.Equal(lb.Header.ID, ownTip().Header.ID) {
+				t.Fatalf("getLastBlock does not return the tip (height %d, the last block applied and not removed): %v", tip, err)
+			}
+			if len(blocks) > 0 && !bytes.Equal(w.data, ownTip().Encode()) {
+				t.Fatalf("getLastBlock: the block served differs from the block applied at height %d", tip)
 			}
 		}
 		// GetBlocksFromID
@@ -342,6 +392,35 @@ func view(n *node.Node) chainView {
 	return v
 }
 
+// ownView is the chain view according to the harness's OWN record of a node: genesis plus the blocks it applied there
+// (as returned by Apply / handed to VerifProcess), in order. Used as the reference where the expected chain is known to
+// the harness (the honest peer's chain, a node's chain before a sync), with the engine's answers (view) cross-checked
+// against it by sameView instead of being the expectation themselves.
+func ownView(genesis *blockchain.Block, applied []*blockchain.Block) chainView {
+	v := chainView{ids: map[uint32][]byte{genesis.Header.Height: genesis.Header.ID}, tip: genesis.Header.Height}
+	for _, b := range applied {
+		v.ids[b.Header.Height] = b.Header.ID
+		v.tip = b.Header.Height
+	}
+	return v
+}
+
+// sameView: "" when the engine's view of a chain equals the own record, else the first difference.
+func sameView(engine, own chainView) string {
+	if engine.tip != own.tip {
+		return fmt.Sprintf("the node reports its last block at height %d, the last block applied to it is at height %d", engine.tip, own.tip)
+	}
+	if len(own.ids) != int(own.tip)+1 {
+		return fmt.Sprintf("harness: own record has %d heights for a tip at %d", len(own.ids), own.tip)
+	}
+	for h := uint32(0); h <= own.tip; h++ {
+		if !bytes.Equal(engine.ids[h], own.ids[h]) {
+			return fmt.Sprintf("the header stored at height %d has id %x, the block applied there has id %x", h, engine.ids[h], own.ids[h])
+		}
+	}
+	return ""
+}
+
 func TestConvergence(t *testing.T) {
 	rapid.Check(t, func(t *rapid.T) {
 		nVal := rapid.SampledFrom([]int{3, 4, 5, 3, 4, 5, 6, 7, 8, 10}).Draw(t, "validators") // 6+ validators: fast sync offers 2n-1 > 10 block IDs (added after seeded change C20-n)
@@ -417,6 +496,8 @@ func TestConvergence(t *testing.T) {
 		}
 		defer P.Close()
 		var hist []string
+		// own record of what was applied to P and to R (the reference for the peer's chain and for R's chain before the sync)
+		var recP, recR []*blockchain.Block
 		// shared prefix
 		for i := 0; i < prefix; i++ {
 			b, err := P.Apply(node.Spec{Script: node.Script{Salt: uint32(i % 5)}})
@@ -426,6 +507,7 @@ func TestConvergence(t *testing.T) {
 			if err := R.Exec.VerifProcess(node.CloneBlock(b), "x"); err != nil {
 				t.Fatalf("R apply shared: %v", err)
 			}
+			recP, recR = append(recP, b), append(recR, b)
 		}
 		hist = append(hist, fmt.Sprintf("shared prefix %d blocks, finalized R=%d, selfish=%v upToDate=%v", prefix, R.Finalized(), selfish, upToDate))
 		for i := 0; i < fr; i++ {
@@ -438,9 +520,11 @@ func TestConvergence(t *testing.T) {
 				mhg := R.Tip().Header.Height
 				spec.MHG = &mhg
 			}
-			if _, err := R.Apply(spec); err != nil {
+			b, err := R.Apply(spec)
+			if err != nil {
 				t.Fatalf("R fork: %v", err)
 			}
+			recR = append(recR, b)
 		}
 		if boundary {
 			fp = fr + rapid.IntRange(1, 3).Draw(t, "boundaryAhead")
@@ -449,19 +533,27 @@ func TestConvergence(t *testing.T) {
 			}
 		}
 		for i := 0; i < fp; i++ {
-			if _, err := P.Apply(node.Spec{Script: node.Script{Salt: 80 + uint32(i%5)}}); err != nil {
+			b, err := P.Apply(node.Spec{Script: node.Script{Salt: 80 + uint32(i%5)}})
+			if err != nil {
 				t.Fatalf("P fork: %v", err)
 			}
+			recP = append(recP, b)
 		}
 		hist = append(hist, fmt.Sprintf("R fork %d blocks (tip %d, finalized %d), P fork %d blocks (tip %d)", fr, R.Tip().Header.Height, R.Finalized(), fp, P.Tip().Header.Height))
 		connect(t, R, P)
-		before := view(R)
+		before := ownView(R.Genesis, recR)
+		if d := sameView(view(R), before); d != "" {
+			t.Fatalf("requester before the sync: %s\n%s", d, strings.Join(hist, "\n"))
+		}
 		Fbefore := R.Finalized()
 		finalIDs := map[uint32][]byte{}
 		for h := uint32(0); h <= Fbefore; h++ {
 			finalIDs[h] = before.ids[h]
 		}
-		ptip := P.Tip() // the block the peer announced
+		ptip := recP[len(recP)-1] // the block the peer announced: the last block applied to it (own record, prefix >= 1)
+		if !bytes.Equal(P.Tip().Header.ID, ptip.Header.ID) {
+			t.Fatalf("peer: Chain.LastBlock() is height %d id %x, the last block applied to it is height %d id %x\n%s", P.Tip().Header.Height, []byte(P.Tip().Header.ID), ptip.Header.Height, []byte(ptip.Header.ID), strings.Join(hist, "\n"))
+		}
 		// ... and the peer may have moved on since: its chain keeps growing while the requester syncs towards the announced block
 		moved := 0
 		if rapid.IntRange(0, 2).Draw(t, "peerMovedOn") == 0 {
@@ -471,13 +563,18 @@ func TestConvergence(t *testing.T) {
 					moved = i
 					break
 				}
-				if _, err := P.Apply(node.Spec{Script: node.Script{Salt: 90 + uint32(i)}}); err != nil {
+				b, err := P.Apply(node.Spec{Script: node.Script{Salt: 90 + uint32(i)}})
+				if err != nil {
 					t.Fatalf("P moves on: %v", err)
 				}
+				recP = append(recP, b)
 			}
 			hist = append(hist, fmt.Sprintf("peer moved on by %d blocks after announcing its block %d", moved, ptip.Header.Height))
 		}
-		preal := P.Tip()
+		preal := recP[len(recP)-1]
+		if !bytes.Equal(P.Tip().Header.ID, preal.Header.ID) {
+			t.Fatalf("peer: Chain.LastBlock() is height %d id %x, the last block applied to it is height %d id %x\n%s", P.Tip().Header.Height, []byte(P.Tip().Header.ID), preal.Header.Height, []byte(preal.Header.ID), strings.Join(hist, "\n"))
+		}
 		// is P's tip better by LIP-0014?
 		rt := R.Tip().Header
 		better := rt.MaxHeightPrevoted < ptip.Header.MaxHeightPrevoted || (rt.MaxHeightPrevoted == ptip.Header.MaxHeightPrevoted && rt.Height < ptip.Header.Height)
@@ -501,7 +598,12 @@ func TestConvergence(t *testing.T) {
 			}
 		}
 		commonBelowFinality := uint32(prefix) < Fbefore
-		pv := view(P)
+		// the peer's chain = the blocks applied to it (own record); what the peer's engine reports must agree with it
+		pv := ownView(P.Genesis, recP)
+		if d := sameView(view(P), pv); d != "" {
+			t.Fatalf("honest peer after serving the sync: %s\n%s", d, strings.Join(hist, "\n"))
+		}
+		evid.R.Label("convergence:peer-chain-and-requester-chain-before-sync-taken-from-own-record(engine cross-checked)", 1)
 		converged := bytes.Equal(R.Tip().Header.ID, ptip.Header.ID) || bytes.Equal(R.Tip().Header.ID, preal.Header.ID)
 		// Which mechanism the protocol prescribes and whether it can succeed (LIP-0014): fast chain switching looks for the
 		// common block among the last 2*n-1 heights and gives up beyond two rounds; block sync needs a height gap > two rounds.
